@@ -50,7 +50,7 @@ class H(Harness):
             if i % 3 == 0:
                 for p in tb['procs']:
                     p['events'] = []       # queue only: the a == 0 branch
-            out.append({'table': tb, 'dynamics': dyn, 'seed': rnd.randrange(1 << 30)})
+            out.append({'table': tb, 'dynamics': dyn, 'seed': rnd.randrange(1 << 30), 'prerun': rnd.random() < 0.25})
         return out
 
     def execute(self, case):
